@@ -194,9 +194,9 @@ check("C07", "model_checking",
       "TLA+ metered machine checked by TLC + TLC trace validation of metered real runs of adversarial programs", "DESIGN.md section 4 C07")
 
 check("C01", "model_checking",
-      "spec/Total.tla defines the operand space - every operator, dice form, postfix form, method, built-in and st form as a template with holes, 20 value classes split where a "
+      "spec/Total.tla defines the operand space - every operator, dice form, postfix form, method, built-in and st form as a template with holes, 22 value classes split where a "
       "crash can depend on the split - and the totality contract (every call of the observation sequence returns value or error; panic, hang and process death are not outcomes). "
-      "TLC writes the complete product (147k cases); the harness places each case in 14 nesting contexts, pre-loads the representatives and performs Parse, RunAfterParsed, "
+      "TLC writes the complete product (195k cases); the harness places each case in 14 nesting contexts, pre-loads the representatives and performs Parse, RunAfterParsed, "
       "GetDetailText, Run again, GetDetailText twice, GetAsmText, Ret.ToString/ToRepr/ToJSON, Matched/RestInput, RunExpr under recover on VMs that serve several inputs, under "
       "configurations drawn from all flag/mode/default-sides/budget combinations, in worker processes with a hang watchdog and restart after process death; byte-level inputs "
       "(random bytes, token soups, truncations, splices) go through the same executor; TLC (Trace_Total) checks every recorded sequence against the contract.",
